@@ -168,4 +168,10 @@ class DeserializationRefsExtractor(
 class SerializationRefsExtractor(
     RefsExtractor, SerializationVisitor, SerializationObjectVisitor
 ):
-    pass
+    def object(self, tp: AnyType, fields: Sequence[ObjectField]):
+        from apischema.serialization.serialized_methods import get_serialized_methods
+
+        super().object(tp, fields)
+        # serialized methods are properties of the schema too
+        for serialized, types in get_serialized_methods(tp):
+            self.visit_with_conv(types["return"], serialized.conversion)
